@@ -94,10 +94,11 @@ CLAIMED["C08"] = dict(
          "full issuance (fresh blind, nonce, challenge per request) and random histories are validated by TLC: logged IDs are "
          "interned and must be equal exactly when the specification's terms are equal; each ID must equal the harness's "
          "independent HKDF-SHA-384 / RFC 9380 XMD / crypto/elliptic reference and the issuer's second return value the reference "
-         "issuer-blinded key. TLAPS (AttesterProofs, thorough tier) proves IndexStable and IndexInjective for arbitrary constants.",
+         "issuer-blinded key. TLAPS (AttesterProofs, thorough tier) proves IndexStable and IndexInjective for arbitrary constants."
+         + " Verdicts.tla (a long-lived object with a memo in front of its check; VerdictIsFunction holds for the intended design - TLAPS: for histories of any length - and fails for three named deviations) generates EVERY history of 3 (thorough 4) presentations over the kind's classes (t3issue: an answer is sound only if the issuer-blinded request key is the reference's for that request); each is replayed on one long-lived rate-limited issuer, each class one concrete request per history, and TLC validates every recorded answer against the specification's decision.",
     note="Hashes, HKDF and group operations are uninterpreted in TLA+; their concrete values are checked only against the "
          "harness's independent reference on the sampled clients, index keys and blinds.",
-    technique="TLA+ symbolic blinding algebra + TLC invariants + TLC trace validation of interned IDs with an independent HKDF/XMD reference",
+    technique="TLA+ symbolic blinding algebra + TLC invariants + TLC trace validation of interned IDs with an independent HKDF/XMD reference + TLC-generated histories of presentations (Verdicts.tla) replayed on a long-lived object",
     ref="5/C08")
 
 _ISS = ("Issuance.tla models the four issuance protocols as one transition system over symbolic cryptography (VOPRF with batch DLEQ "
@@ -108,9 +109,10 @@ CLAIMED["C01"] = dict(
          "constraint). Complete honest runs of all four types - request marshalled, unmarshalled by the issuer, evaluated, response "
          "finalized - over challenge lengths, batch sizes 1..513 and origin lengths are recorded and validated by TLC: completion, the "
          "exact token layout at byte level (Messages.tla, digests supplied by the harness) and validity under the issuer key "
-         "(independent oracle: circl FullEvaluate / crypto/rsa.VerifyPSS over an input concatenated by the harness). TLAPS (IssuanceProofs, thorough tier) proves HonestIsAccepted for arbitrary constants and batch sizes.",
+         "(independent oracle: circl FullEvaluate / crypto/rsa.VerifyPSS over an input concatenated by the harness). TLAPS (IssuanceProofs, thorough tier) proves HonestIsAccepted for arbitrary constants and batch sizes."
+         + " Verdicts.tla (a long-lived object with a memo in front of its check; VerdictIsFunction holds for the intended design - TLAPS: for histories of any length - and fails for three named deviations) generates EVERY history of 3 (thorough 4) presentations over the kind's classes (t1issue/t2issue/t5issue/t3issue: honest requests and requests that must be refused); each is replayed on one long-lived issuer per type (with one request object on its side), each class one concrete request per history, and TLC validates every recorded answer against the specification's decision.",
     note="Keys, nonces, challenges and blinds are sampled; RSA keys are 2048-bit. SHA-256 digests are supplied next to the data.",
-    technique="TLA+ protocol spec + TLC safety and liveness + TLC trace validation of recorded honest runs over the wire with byte-level token layout",
+    technique="TLA+ protocol spec + TLC safety and liveness + TLC trace validation of recorded honest runs over the wire with byte-level token layout + TLC-generated histories of presentations (Verdicts.tla) replayed on a long-lived object",
     ref="5/C01")
 CLAIMED["C02"] = dict(
     text=_ISS + "TLC checks OnlyGoodTokens, ListedMutationsRejected and ForeignKeyRejected over all attacker choices. Recorded runs "
